@@ -42,6 +42,46 @@ def noDangling (doc : Doc) : Prop := ∀ o ∈ doc, ∀ r ∈ o.refs, Present do
 
 def checkOK (objs : List Obj) : Prop := ∀ o ∈ objs, ∀ r ∈ o.refs, Present objs r
 
+/-! ## the provided keep functions, specified from their documentation (not from the Go bodies)
+
+* by bounds `[minX, maxX] × [minY, maxY]`: a NODE is selected iff its position lies in the CLOSED
+  rectangle (all four edges and corners included; a one-point rectangle selects the nodes at that
+  point; an inverted rectangle is empty); a way / relation is selected iff one of its members is kept.
+* by tags: an object is selected iff it carries a tag whose key is wanted and whose value is one of
+  the values listed for that key (no values listed = any value).
+* all: every object is selected.
+The judge computes `closure doc (specKeep ks)` and compares the implementation's id sets with it;
+`specKeep_bounds/tags/all` (Proofs) show the model's keep functions coincide with these. -/
+
+inductive KeepSpec
+  | all
+  | tags (want : List (Nat × List Nat))
+  | bounds (minX minY maxX maxY : Int)
+
+def inClosedRect (minX minY maxX maxY x y : Int) : Prop :=
+  minX ≤ x ∧ x ≤ maxX ∧ minY ≤ y ∧ y ≤ maxY
+
+instance (a b c d x y : Int) : Decidable (inClosedRect a b c d x y) :=
+  inferInstanceAs (Decidable (_ ∧ _ ∧ _ ∧ _))
+
+/-- tag `t = (key, value)` is wanted: its key is listed, with no values (any) or with this value -/
+def wantsTag (want : List (Nat × List Nat)) (t : Nat × Nat) : Bool :=
+  want.any fun w => w.1 == t.1 && (w.2.isEmpty || w.2.contains t.2)
+
+/-- the state-independent part of the selection -/
+def KeepSpec.selectsBase : KeepSpec → Obj → Bool
+  | .all, _ => true
+  | .tags want, o => o.tags.any (wantsTag want)
+  | .bounds a b c d, o => o.key.kind == .node && decide (inClosedRect a b c d o.x o.y)
+
+/-- whether "one of my members is kept" also selects the object -/
+def KeepSpec.byMembers : KeepSpec → Obj → Bool
+  | .bounds _ _ _ _, o => o.key.kind != .node
+  | _, _ => false
+
+/-- the keep function the documentation describes (used by the judge) -/
+def specKeep (ks : KeepSpec) : Keep := ⟨ks.selectsBase, ks.byMembers⟩
+
 /-! ## executable closure (used by the judge) -/
 
 def presentB (doc : Doc) (r : Ref) : Bool := doc.any fun o => o.key == r
